@@ -126,8 +126,11 @@ type Frame struct {
 	loopEntryGh map[*loopInfo]*Ghost
 	decHead   map[*loopInfo]*Term
 	inlineSet map[string]bool   // callees expanded in place in this verification (from the top contract)
-	addrNames map[string]*ssa.Alloc      // address-taken locals by source name
+	addrNames map[string]*ssa.Alloc      // address-taken locals by source name (nil when ambiguous)
+	addrAll   map[string][]*ssa.Alloc    // all of them, in block order (name__k selects the k-th)
 	parent    *Frame                     // inlined frames: the frame of the call site
+	parentEnv map[ssa.Value]Val          // ... and its environment at the call
+	loopKeeps map[*loopInfo][]designator // declared 'keeps' regions
 	loopMods  map[*loopInfo][]designator // declared loop frames, evaluated at the loop head
 	unp       []*unpObj         // unpacked objects (shared with inlined frames)
 	unpIn     map[*unpObj]Val   // inlined frame: objects at entry
@@ -211,6 +214,10 @@ func (e *Engine) newFrame(fn *ssa.Function, con *Contract, top bool, depth int) 
 					} else {
 						f.addrNames[x.Comment] = nil // ambiguous
 					}
+					if f.addrAll == nil {
+						f.addrAll = map[string][]*ssa.Alloc{}
+					}
+					f.addrAll[x.Comment] = append(f.addrAll[x.Comment], x)
 				}
 			}
 		}
@@ -979,7 +986,23 @@ func (f *Frame) cutLoop(n *xnode, li *loopInfo, st *execState) {
 		}
 		// memory handed out by the allocator in earlier iterations (and written
 		// there, which the loop frame allows) is arbitrary at the loop head
+		var keeps []designator
+		for _, k := range li.spec.Keeps {
+			sc.goal = false
+			keeps = append(keeps, e.evalDesignator(sc, k.Expr, k.Text))
+		}
+		if f.loopKeeps == nil {
+			f.loopKeeps = map[*loopInfo][]designator{}
+		}
+		f.loopKeeps[li] = keeps
+		beforeFresh := st.mem
 		st.mem = e.mc.HavocRange(st.mem, tb.ConstU(preLimit, 64), tb.ConstU(addrLimit-preLimit, 64), "loopmem.fresh")
+		// ... except the regions the loop declares it keeps (checked write by write)
+		for _, d := range keeps {
+			if d.ghost == "" {
+				st.mem = e.mc.Region(st.mem, d.lo, d.n, beforeFresh)
+			}
+		}
 	} else {
 		st.mem = f.havocLoopMem(li, st)
 		if st.mem != memBefore {
@@ -1880,22 +1903,30 @@ func (e *Engine) romFallback() *Term { return e.tb.ArrVar("rom!oob") }
 // locals that must not be restored (written in the loop being cut).
 func (f *Frame) keepLocals(st *execState, before *Mem, skip map[*ssa.Alloc]bool) {
 	e := f.e
-	for _, b := range f.fn.Blocks {
-		for _, ins := range b.Instrs {
-			a, ok := ins.(*ssa.Alloc)
-			if !ok || a.Heap || skip[a] {
-				continue
+	env := st.env
+	for g := f; g != nil; g = g.parent {
+		for _, b := range g.fn.Blocks {
+			for _, ins := range b.Instrs {
+				a, ok := ins.(*ssa.Alloc)
+				if !ok || a.Heap || (g == f && skip[a]) {
+					continue
+				}
+				pv, ok := env[a]
+				if !ok {
+					continue
+				}
+				et := a.Type().Underlying().(*types.Pointer).Elem()
+				sz := sizes.Sizeof(et)
+				if sz <= 0 || sz > 4096 {
+					continue
+				}
+				st.mem = e.mc.Region(st.mem, pv.(Scalar).T, e.tb.ConstU(uint64(sz), 64), before)
 			}
-			pv, ok := st.env[a]
-			if !ok {
-				continue
-			}
-			et := a.Type().Underlying().(*types.Pointer).Elem()
-			sz := sizes.Sizeof(et)
-			if sz <= 0 || sz > 4096 {
-				continue
-			}
-			st.mem = e.mc.Region(st.mem, pv.(Scalar).T, e.tb.ConstU(uint64(sz), 64), before)
+		}
+		// the locals of the frames this one is inlined into are out of reach too
+		env = g.parentEnv
+		if env == nil {
+			break
 		}
 	}
 }
@@ -1941,4 +1972,21 @@ func (f *Frame) localsWrittenIn(li *loopInfo) map[*ssa.Alloc]bool {
 		}
 	}
 	return out
+}
+
+// localByName resolves a source name of an address-taken local; "name__k"
+// selects the k-th local of that name (1-based, in block order).
+func (f *Frame) localByName(name string) *ssa.Alloc {
+	if a := f.addrNames[name]; a != nil {
+		return a
+	}
+	if i := strings.LastIndex(name, "__"); i > 0 {
+		var k int
+		if _, err := fmt.Sscanf(name[i+2:], "%d", &k); err == nil && k >= 1 {
+			if as := f.addrAll[name[:i]]; k <= len(as) {
+				return as[k-1]
+			}
+		}
+	}
+	return nil
 }
